@@ -7,6 +7,8 @@ mkdir -p bin evidence replays
 # The repository under test is /repo; VERIF_REPO may point a background run at a snapshot of it instead.
 REPO="${VERIF_REPO:-/repo}"
 export VERIF_DIR="$PWD"
+# builds of concurrently started checks are serialised (they share bin/ and mc/go.sum); the lock is released before a check runs
+exec 9>bin/.build.lock; flock 9
 # keep the harness' go.sum a superset of the repository's
 if [ -f "$REPO/go.sum" ]; then cat "$REPO/go.sum" mc/go.sum 2>/dev/null | sort -u > bin/go.sum.tmp && mv bin/go.sum.tmp mc/go.sum; fi
 MODFLAG=""
@@ -48,7 +50,7 @@ fi
 ID="$1"; shift
 ulimit -c 0
 case "$ID" in
-  C12) build_sched; exec ./bin/check-sched "$ID" "$@" ;;
-  C11) build_plain; build_sched; build_race; exec ./bin/check "$ID" "$@" ;;
-  *)   build_plain; exec ./bin/check "$ID" "$@" ;;
+  C12) build_sched; exec 9>&-; exec ./bin/check-sched "$ID" "$@" ;;
+  C11) build_plain; build_sched; build_race; exec 9>&-; exec ./bin/check "$ID" "$@" ;;
+  *)   build_plain; exec 9>&-; exec ./bin/check "$ID" "$@" ;;
 esac
